@@ -30,8 +30,8 @@ def trusted(ctx):
     ctx.trusted.add(TRUSTED)
     ctx.trusted.add("translator coeffsfl2coq (typed trees; cross-checked against coeffs2coq on every run and by the bit-exact "
                     "weight stream)")
-    ctx.trusted.add("rndQ for binary64 constants / fl_evalQ (Model/FExpr.v) are executable definitions validated by the bit-exact "
-                    "weight stream; the bounds do not depend on them")
+    ctx.trusted.add("the Q2R image of the exact Qc tables of the extracted models is used as the real-number table of the rounding "
+                    "theorems (same generic-field functions at the two instances; the ring morphism itself is not a theorem)")
 
 
 def _run(text):
